@@ -238,6 +238,13 @@ def run(ctx):
                             lab = "T" if isinstance(tt.ops[0], ast.Eq) else "F"
                             if v.cfg.branch_dominated(v.cfg.by_ast[id(tt)], lab, xid):
                                 dist = True
+                    # the partners are a sample without replacement: they are distinct; adding the activated node only when it is
+                    # not among them keeps the hyperedge free of repeats
+                    if isinstance(tt, ast.Compare) and len(tt.ops) == 1 and isinstance(tt.ops[0], (ast.In, ast.NotIn)) and norm(tt.left) == me and norm(tt.comparators[0]) == lst:
+                        lab = "T" if isinstance(tt.ops[0], ast.NotIn) else "F"
+                        tid_ = v.cfg.by_ast.get(id(tt))
+                        if tid_ is not None and v.cfg.branch_dominated(tid_, lab, xid) and all(v.cfg.branch_dominated(tid_, lab, v.cfg_id(a_)) for a_ in apps):
+                            dist = True
                 any_if = bool(v.enclosing_all(x, (ast.If,))) or any(isinstance(y, ast.Continue) for y in ast.walk(v.enclosing(x, (ast.For,)) or x))
                 res.add("D-SAMPLE", f, norm(x), "distinct", "ok" if dist else ("unknown" if any_if and not dist and False else "violation"), "" if dist else "hyperedges with a repeated node are emitted", loc(v.fi, x))
                 if tname is not None:
@@ -267,10 +274,27 @@ def run(ctx):
         if pool is None or idx is None or cur is None:
             raise AnalysisError(f"{f}: pool / selected positions / hyperedge list not identified")
 
+        def is_idx(e):
+            """the selected positions, possibly re-packed: idx / set(idx) / sorted(idx) / a local holding one of these"""
+            x = e
+            for _ in range(6):
+                if norm(x) == idx or (pick_asg is not None and norm(x) == norm(pick_asg.value)):
+                    return True
+                if isinstance(x, ast.Call) and isinstance(x.func, ast.Name) and x.func.id in ("set", "sorted", "list", "tuple", "frozenset") and len(x.args) == 1:
+                    x = x.args[0]
+                elif isinstance(x, ast.Name):
+                    r_ = v.resolve(x)
+                    if r_ is x:
+                        return False
+                    x = r_
+                else:
+                    return False
+            return False
+
         def selected_edges_generators(gens):
             """`for i in <selected positions> for node in <edges>[i]`"""
             its = [norm(g.iter) for g in gens]
-            return len(gens) >= 2 and its[0] == idx and its[1] == f"{cur}[{norm(gens[0].target)}]"
+            return len(gens) >= 2 and is_idx(gens[0].iter) and its[1] == f"{cur}[{norm(gens[0].target)}]"
 
         n_sources = 0
         pool_names = {pool}
@@ -287,7 +311,7 @@ def run(ctx):
                         n_sources += 1
                         loops = v.enclosing_all(n, (ast.For,))
                         its = [norm(l.iter) for l in loops]
-                        ok = len(loops) >= 2 and its[-1] == idx and its[-2] == f"{cur}[{norm(loops[-1].target)}]"
+                        ok = len(loops) >= 2 and is_idx(loops[-1].iter) and its[-2] == f"{cur}[{norm(loops[-1].target)}]"
                         res.check(ok, "D-POOL", f, norm(n), "from-rewired-edges", f"the pool is filled while iterating {its}: replacement nodes can come from hyperedges that are not rewired", loc(v.fi, n))
                     # (b) whole-pool definitions
                     if isinstance(t, ast.Name) and t.id in pool_names and isinstance(n, ast.Assign):
